@@ -506,7 +506,9 @@ def residuals(vec1: ndarray, vec2: ndarray, angular: ndarray) -> ndarray:
 
 def vecWrapAngleNeg(angles: ndarray) -> ndarray:
     r"""Force angle into range of :math:`(-\pi, \pi]`."""
-    return (angles + const.PI) % const.TWOPI - const.PI
+    # [NOTE]: Mirrored form so that the closed end of the interval is +pi, as documented (and as the scalar
+    #   `wrapAngleNegPiPi()` does); `(angles + pi) % 2pi - pi` maps +pi to -pi.
+    return const.PI - (const.PI - angles) % const.TWOPI
 
 
 def vecWrapAngle2Pi(angles: ndarray) -> ndarray:
